@@ -28,3 +28,27 @@ Lemma argmax_of_ranks_refuted :
     argmax (ranks (truthy (py_not (PyBool false))) means) = 1 /\
     (nth 0 means 0 < nth 1 means 0)%Q.
 Proof. exists [1%Q; 2%Q]. vm_compute. split; reflexivity. Qed.
+
+(* ---- one forecaster instance shared by all candidates (regression C08-a) ------------------------
+   `clone(self.forecaster)` hoisted out of _fit_and_score: candidate i is set on the object candidate
+   i-1 left behind.  With the list-of-dicts grid [{d: -2}; {e: 0}; {d: -2, tag: 1}] over the double
+   `last value` the second candidate does not name d: the search evaluates it with the base value
+   d = 0 (mean 3), the shared-instance loop with the leftover d = -2 (mean 11/3), so its row is not
+   an independent evaluate() run of `apply_params base p` and candidate isolation fails. *)
+Require Import SkV.Lib.ZRange SkV.C01.Model SkV.C07.Model SkV.C07.Cases SkV.C07.Proofs.
+Require Import SkV.C08.Site SkV.C08.Cases SkV.C08.Proofs.
+
+Definition resq_eqb (a b : res Q) : bool :=
+  match a, b with Ok x, Ok y => Qeq_bool x y | Err, Err => true | _, _ => false end.
+
+Lemma shared_instance_breaks_isolation_refuted :
+  exists (base : fc8) (cands : list (list pset)),
+    let fresh := map (cand_mean Q (fun p => p + 7) (series ex_y) None (metric_of MMAE) fc8 (list pset)
+                                apply8 respond8 cutoff8 base ex_sp Refit) cands in
+    let shared := shared_means Q (fun p => p + 7) (series ex_y) None (metric_of MMAE) fc8 (list pset)
+                               apply8 respond8 cutoff8 ex_sp Refit base cands in
+    resq_eqb (nth 0 fresh Err) (nth 0 shared Err) = true /\
+    resq_eqb (nth 1 fresh Err) (Ok 3%Q) = true /\
+    resq_eqb (nth 1 shared Err) (Ok (11 # 3)%Q) = true /\
+    resq_eqb (nth 1 fresh Err) (nth 1 shared Err) = false.
+Proof. exists ex_base, ex_cands. vm_compute. repeat split; reflexivity. Qed.
